@@ -20,6 +20,17 @@ namespace bpp
 {
 class Parameter;
 
+#ifdef BPP_CORE_VERIF
+namespace verif
+{
+/**
+ * @brief Verification hook (only with -DBPP_CORE_VERIF): if non-null, called at the end of every
+ * state-changing member of Parameter with the parameter and the name of the site.
+ */
+extern void (* parameterAudit)(const Parameter* parameter, const char* site);
+}
+#endif
+
 class ParameterEvent :
   public virtual Clonable
 {
